@@ -54,9 +54,9 @@ def genSnippetDumps : List (String × String) := [
   ("CODE_PEP342_RETURN_UNCHECKED",
    "Return(YieldFrom(Call(Name('__beartype_func', Load()), [Starred(Name('args', Load()), Load())], [keyword(value=Name('kwargs', Load()))])))"),
   ("CODE_PEP525_RETURN_CHECKED",
-   "Try([Assign([Name('__beartype_agen_yield_pith', Store())], Await(Call(Name('anext', Load()), [Name('__beartype_pith_0', Load())], [])))], [ExceptHandler(Name('StopAsyncIteration', Load()), body=[Return()])], [While(Constant(True), [Try([Assign([Name('__beartype_agen_send_pith', Store())], Yield(Name('__beartype_agen_yield_pith', Load())))], [ExceptHandler(Name('GeneratorExit', Load()), 'exception', [Expr(Await(Call(Attribute(Name('__beartype_pith_0', Load()), 'aclose', Load()), [], []))), Raise()]), ExceptHandler(Name('BaseException', Load()), '__beartype_agen_exception', [Try([Assign([Name('__beartype_agen_yield_pith', Store())], Await(Call(Attribute(Name('__beartype_pith_0', Load()), 'athrow', Load()), [Name('__beartype_agen_exception', Load())], [])))], [ExceptHandler(Name('StopAsyncIteration', Load()), body=[Return()])], [], [])])], [Try([If(Compare(Name('__beartype_agen_send_pith', Load()), [Is()], [Constant(None)]), [Assign([Name('__beartype_agen_yield_pith', Store())], Await(Call(Name('anext', Load()), [Name('__beartype_pith_0', Load())], [])))], [Assign([Name('__beartype_agen_yield_pith', Store())], Await(Call(Attribute(Name('__beartype_pith_0', Load()), 'asend', Load()), [Name('__beartype_agen_send_pith', Load())], [])))])], [ExceptHandler(Name('StopAsyncIteration', Load()), body=[Return()])], [], [])], [])], [])], [])"),
+   "Try([Assign([Name('$0', Store())], Await(Call(Name('anext', Load()), [Name('__beartype_pith_0', Load())], [])))], [ExceptHandler(Name('StopAsyncIteration', Load()), body=[Return()])], [While(Constant(True), [Try([Assign([Name('$3', Store())], Yield(Name('$0', Load())))], [ExceptHandler(Name('GeneratorExit', Load()), '$1', [Expr(Await(Call(Attribute(Name('__beartype_pith_0', Load()), 'aclose', Load()), [], []))), Raise()]), ExceptHandler(Name('BaseException', Load()), '$2', [Try([Assign([Name('$0', Store())], Await(Call(Attribute(Name('__beartype_pith_0', Load()), 'athrow', Load()), [Name('$2', Load())], [])))], [ExceptHandler(Name('StopAsyncIteration', Load()), body=[Return()])], [], [])])], [Try([If(Compare(Name('$3', Load()), [Is()], [Constant(None)]), [Assign([Name('$0', Store())], Await(Call(Name('anext', Load()), [Name('__beartype_pith_0', Load())], [])))], [Assign([Name('$0', Store())], Await(Call(Attribute(Name('__beartype_pith_0', Load()), 'asend', Load()), [Name('$3', Load())], [])))])], [ExceptHandler(Name('StopAsyncIteration', Load()), body=[Return()])], [], [])], [])], [])], [])"),
   ("CODE_PEP525_RETURN_UNCHECKED",
-   "Assign([Name('__beartype_pith_0', Store())], Call(Name('__beartype_func', Load()), [Starred(Name('args', Load()), Load())], [keyword(value=Name('kwargs', Load()))])); Try([Assign([Name('__beartype_agen_yield_pith', Store())], Await(Call(Name('anext', Load()), [Name('__beartype_pith_0', Load())], [])))], [ExceptHandler(Name('StopAsyncIteration', Load()), body=[Return()])], [While(Constant(True), [Try([Assign([Name('__beartype_agen_send_pith', Store())], Yield(Name('__beartype_agen_yield_pith', Load())))], [ExceptHandler(Name('GeneratorExit', Load()), 'exception', [Expr(Await(Call(Attribute(Name('__beartype_pith_0', Load()), 'aclose', Load()), [], []))), Raise()]), ExceptHandler(Name('BaseException', Load()), '__beartype_agen_exception', [Try([Assign([Name('__beartype_agen_yield_pith', Store())], Await(Call(Attribute(Name('__beartype_pith_0', Load()), 'athrow', Load()), [Name('__beartype_agen_exception', Load())], [])))], [ExceptHandler(Name('StopAsyncIteration', Load()), body=[Return()])], [], [])])], [Try([If(Compare(Name('__beartype_agen_send_pith', Load()), [Is()], [Constant(None)]), [Assign([Name('__beartype_agen_yield_pith', Store())], Await(Call(Name('anext', Load()), [Name('__beartype_pith_0', Load())], [])))], [Assign([Name('__beartype_agen_yield_pith', Store())], Await(Call(Attribute(Name('__beartype_pith_0', Load()), 'asend', Load()), [Name('__beartype_agen_send_pith', Load())], [])))])], [ExceptHandler(Name('StopAsyncIteration', Load()), body=[Return()])], [], [])], [])], [])], [])")
+   "Assign([Name('__beartype_pith_0', Store())], Call(Name('__beartype_func', Load()), [Starred(Name('args', Load()), Load())], [keyword(value=Name('kwargs', Load()))])); Try([Assign([Name('$0', Store())], Await(Call(Name('anext', Load()), [Name('__beartype_pith_0', Load())], [])))], [ExceptHandler(Name('StopAsyncIteration', Load()), body=[Return()])], [While(Constant(True), [Try([Assign([Name('$3', Store())], Yield(Name('$0', Load())))], [ExceptHandler(Name('GeneratorExit', Load()), '$1', [Expr(Await(Call(Attribute(Name('__beartype_pith_0', Load()), 'aclose', Load()), [], []))), Raise()]), ExceptHandler(Name('BaseException', Load()), '$2', [Try([Assign([Name('$0', Store())], Await(Call(Attribute(Name('__beartype_pith_0', Load()), 'athrow', Load()), [Name('$2', Load())], [])))], [ExceptHandler(Name('StopAsyncIteration', Load()), body=[Return()])], [], [])])], [Try([If(Compare(Name('$3', Load()), [Is()], [Constant(None)]), [Assign([Name('$0', Store())], Await(Call(Name('anext', Load()), [Name('__beartype_pith_0', Load())], [])))], [Assign([Name('$0', Store())], Await(Call(Attribute(Name('__beartype_pith_0', Load()), 'asend', Load()), [Name('$3', Load())], [])))])], [ExceptHandler(Name('StopAsyncIteration', Load()), body=[Return()])], [], [])], [])], [])], [])")
 ]
 
 end BearVerif.Extracted
